@@ -10,6 +10,9 @@ Proof.
   rewrite andb_true_r. apply andb_comm.
 Qed.
 
+Lemma trim_ows_rev s : trim_ows s = rev (trim_ows_left (rev (trim_ows_left s))).
+Proof. unfold trim_ows, frev. rewrite <- !rev_alt. reflexivity. Qed.
+
 Lemma forallb_trim_left f s : forallb f s = true -> forallb f (trim_ows_left s) = true.
 Proof.
   induction s as [|c s IH]; intro H; [reflexivity|]. cbn [trim_ows_left].
@@ -18,7 +21,7 @@ Qed.
 
 Lemma forallb_trim f s : forallb f s = true -> forallb f (trim_ows s) = true.
 Proof.
-  intro H. unfold trim_ows. rewrite forallb_rev. apply forallb_trim_left. rewrite forallb_rev.
+  intro H. rewrite trim_ows_rev. rewrite forallb_rev. apply forallb_trim_left. rewrite forallb_rev.
   apply forallb_trim_left, H.
 Qed.
 
@@ -41,7 +44,7 @@ Qed.
 
 Lemma trim_plain s : forallb plain_c s = true -> trim_ows s = s.
 Proof.
-  intro H. unfold trim_ows. rewrite (trim_left_plain s H).
+  intro H. rewrite trim_ows_rev. rewrite (trim_left_plain s H).
   rewrite (trim_left_plain (rev s)) by (rewrite forallb_rev; exact H). apply rev_involutive.
 Qed.
 
